@@ -90,3 +90,151 @@ def unbound_names(ix, f):
             continue
         res.append((name, node))
     return res
+
+
+# ---------------------------------------------------------------- E8b definite use-before-definition
+def definite_unbound_locals(run, f):
+    """[(name, node)]: loads of a *local* name at a statement that no path reaches with the name assigned:
+    executing the statement always raises UnboundLocalError.  (Path-exhaustive over E3; a load that is unassigned only
+    on some paths is not reported - that may be an infeasible path.)"""
+    from .absint import Domain, Interp, NORMAL
+
+    fnode = f.node
+    a = fnode.args
+    params = {x.arg for x in a.posonlyargs + a.args + a.kwonlyargs}
+    if a.vararg:
+        params.add(a.vararg.arg)
+    if a.kwarg:
+        params.add(a.kwarg.arg)
+    locals_ = set()
+    globals_ = set()
+    for n in walk_local(fnode):
+        if isinstance(n, ast.Name) and isinstance(n.ctx, (ast.Store, ast.Del)):
+            locals_.add(n.id)
+        elif isinstance(n, (ast.Global, ast.Nonlocal)):
+            globals_.update(n.names)
+        elif isinstance(n, ast.ExceptHandler) and n.name:
+            locals_.add(n.name)
+        elif isinstance(n, (ast.Import, ast.ImportFrom)):
+            for al in n.names:
+                locals_.add((al.asname or al.name).split(".")[0])
+        elif isinstance(n, (ast.FunctionDef, ast.AsyncFunctionDef, ast.ClassDef)) and n is not fnode:
+            locals_.add(n.name)
+    # names bound only inside comprehensions are not function locals
+    comp_only = set()
+    for n in walk_local(fnode):
+        if isinstance(n, (ast.ListComp, ast.SetComp, ast.DictComp, ast.GeneratorExp)):
+            for g in n.generators:
+                for t in ast.walk(g.target):
+                    if isinstance(t, ast.Name):
+                        comp_only.add(t.id)
+    outside = set()
+    def collect(n, incomp):
+        if isinstance(n, (ast.ListComp, ast.SetComp, ast.DictComp, ast.GeneratorExp)):
+            for c in ast.iter_child_nodes(n):
+                collect(c, True)
+            return
+        if isinstance(n, (ast.FunctionDef, ast.AsyncFunctionDef, ast.ClassDef, ast.Lambda)) and n is not fnode:
+            return
+        if isinstance(n, ast.Name) and isinstance(n.ctx, (ast.Store, ast.Del)) and not incomp:
+            outside.add(n.id)
+        for c in ast.iter_child_nodes(n):
+            collect(c, incomp)
+    collect(fnode, False)
+    # names bound by a walrus are assigned inside expressions the interpreter does not model: never reported
+    walrus = {n.target.id for n in walk_local(fnode) if isinstance(n, ast.NamedExpr) and isinstance(n.target, ast.Name)}
+    locals_ = {x for x in locals_ if (x in outside or x not in comp_only)} - globals_ - params - walrus
+    for n in walk_local(fnode):
+        if isinstance(n, ast.ExceptHandler) and n.name:
+            locals_.add(n.name)
+    if not locals_:
+        return []
+
+    class Dom(Domain):
+        def initial(self):
+            return frozenset()
+
+        def on_store(self, target, value, state, stmt):
+            for t in ast.walk(target) if isinstance(target, ast.AST) else []:
+                if isinstance(t, ast.Name):
+                    state = state | {t.id}
+            return state
+
+        def on_delete(self, target, state, stmt):
+            if isinstance(target, ast.Name):
+                return state - {target.id}
+            return state
+
+        def on_stmt(self, stmt, state):
+            if isinstance(stmt, (ast.Import, ast.ImportFrom)):
+                return state | {(al.asname or al.name).split(".")[0] for al in stmt.names}
+            return state
+
+    it = Interp(Dom(), run.lat, record=True)
+    # imports are simple statements handled by s_Pass: add their names through after-the-fact pass
+    orig = it.s_Import
+
+    def s_import(node, states, cur_exc):
+        out = {}
+        for s, tr in states.items():
+            out[(s | {(al.asname or al.name).split(".")[0] for al in node.names}, NORMAL)] = tr
+        return out
+    it.s_Import = it.s_ImportFrom = s_import
+    try:
+        it.run(fnode)
+    except Exception:
+        return []
+    run.paths += sum(len(v) for v in it.reach.values())
+
+    def header_loads(stmt):
+        if isinstance(stmt, (ast.If, ast.While)):
+            roots = [stmt.test]
+        elif isinstance(stmt, (ast.For, ast.AsyncFor)):
+            roots = [stmt.iter]
+        elif isinstance(stmt, (ast.With, ast.AsyncWith)):
+            roots = [i.context_expr for i in stmt.items]
+        elif isinstance(stmt, (ast.Try, ast.FunctionDef, ast.AsyncFunctionDef, ast.ClassDef)):
+            roots = []
+        else:
+            roots = [stmt]
+        out = []
+
+        def rec(n, bound):
+            if isinstance(n, (ast.ListComp, ast.SetComp, ast.DictComp, ast.GeneratorExp)):
+                b = set(bound)
+                rec(n.generators[0].iter, b)        # the rest runs zero or more times
+                return
+            if isinstance(n, ast.Lambda):
+                return
+            if isinstance(n, ast.BoolOp):          # only the first operand is evaluated unconditionally
+                rec(n.values[0], bound)
+                return
+            if isinstance(n, ast.IfExp):
+                rec(n.test, bound)
+                return
+            if isinstance(n, ast.Name) and isinstance(n.ctx, ast.Load) and n.id not in bound:
+                out.append(n)
+            for c in ast.iter_child_nodes(n):
+                rec(c, bound)
+        for r in roots:
+            rec(r, set())
+        return out
+
+    res = []
+    for stmt, states in it.reach.items():
+        if not states:
+            continue
+        stored_here = set()
+        if isinstance(stmt, ast.AugAssign):
+            pass
+        for ld in header_loads(stmt):
+            if ld.id in locals_ and all(ld.id not in st for st in states):
+                # `x = f(x)` loads x before storing: still unbound; but skip names stored earlier in the same statement (walrus)
+                res.append((ld.id, ld))
+    seen = set()
+    out = []
+    for name, node in sorted(res, key=lambda r: (r[1].lineno, r[1].col_offset)):
+        if (name, node.lineno) not in seen:
+            seen.add((name, node.lineno))
+            out.append((name, node))
+    return out
